@@ -67,11 +67,62 @@ def work(tier, seed):
             if kind in ("ulp", "negated", "dyadic") and n > 7:
                 continue
             items.append({"blocks": [list(x) for x in bl], "grid": kind})
+        if n <= (4 if tier == "quick" else 6):
+            for kind in ot.MIXED_KINDS:
+                items.append({"blocks": [list(x) for x in bl], "grid": kind})
     for n in (ot.LADDER_QUICK if tier == "quick" else ot.LADDER_THOROUGH):
         items.append({"ladder": n})
     for bl in ot.order_types(2, 2) if tier == "quick" else ot.order_types(3, 3):
         items.append({"bigint": [list(x) for x in bl]})
     return items
+
+
+def _run_mixed(item, ctx, blocks):
+    """The two classes are stored in different dtypes (ordertypes.concretise_mixed): counting, row sums, rates."""
+    from score_analysis import Scores
+
+    pos, neg, vals, parr, narr = ot.concretise_mixed(blocks, item["grid"])
+    T = ot.threshold_alphabet(vals)
+    Tarr = np.array(T, dtype=float)
+    for cfg in ot.CFGS:
+        sc, ec = cfg
+        for ep, en in ((0, 0), (2, 1)):
+            case = {"blocks": item["blocks"], "grid": item["grid"], "pos": pos, "neg": neg, "pos_dtype": parr.dtype.name,
+                    "neg_dtype": narr.dtype.name, "cfg": cfg, "easy": [ep, en]}
+            ctx.state()
+            ok, s = guarded(ctx, "construct", case, Scores, parr.copy(), narr.copy(), nb_easy_pos=ep, nb_easy_neg=en, score_class=sc,
+                            equal_class=ec)
+            if not ok:
+                continue
+            ok, m = guarded(ctx, "cm-array", case, lambda: s.cm(Tarr).matrix.tolist())
+            if not ok:
+                continue
+            for k, t in enumerate(T):
+                exp = refs.ref_cm(pos, neg, t, sc, ec, ep, en)
+                ctx.tick()
+                ctx.nontrivial()
+                if m[k] != exp:
+                    ctx.fail("cm-equals-counting", dict(case, threshold=t), observed=m[k], expected=exp)
+                    break
+                ok2, ms = guarded(ctx, "cm-scalar", dict(case, threshold=t), lambda: s.cm(t).matrix.tolist())
+                ctx.tick()
+                if ok2 and ms != exp:
+                    ctx.fail("cm-scalar-equals-array", dict(case, threshold=t), observed=ms, expected=exp)
+                    break
+            for name in RATES:
+                ok, rv = guarded(ctx, "rate-" + name, case, lambda: np.asarray(getattr(s, name)(Tarr), dtype=float).tolist())
+                if not ok:
+                    continue
+                for k, t in enumerate(T):
+                    want = refs.ref_rates(refs.ref_cm(pos, neg, t, sc, ec, ep, en))[name]
+                    ctx.tick()
+                    if not refs.same_float(rv[k], want):
+                        ctx.fail("rate-equals-ratio-of-counts", dict(case, threshold=t, rate=name), observed=rv[k],
+                                 expected=None if want is None else float(want))
+                        break
+            ctx.outcome((item["grid"], cfg, ep, en, str(m)))
+    ctx.sample({"blocks": item["blocks"], "grid": item["grid"], "pos": pos, "neg": neg})
+    return None
 
 
 def _snippet(pos, neg, cfg, ep, en, t):
@@ -93,6 +144,8 @@ def run(item, ctx, tier, seed):
     if "bigint" in item:
         return _run_bigint(item, ctx)
     blocks = [tuple(x) for x in item["blocks"]]
+    if item["grid"] in ot.MIXED_KINDS:
+        return _run_mixed(item, ctx, blocks)
     pos, neg, vals = ot.concretise(blocks, item["grid"], seed)
     T = ot.threshold_alphabet(vals)
     Tarr = np.array(T, dtype=float)
